@@ -17,20 +17,21 @@ import (
 )
 
 type fn struct {
-	obj     *types.Func
-	decl    *ast.FuncDecl
-	file    string
-	name    string
-	inout   []*types.Var // pointer receiver / pointer params (returned updated)
-	monadic bool
-	usesG   bool
-	hasLoop bool
-	local   bool // can panic locally
-	callees map[*types.Func]bool
-	gvars   map[*types.Var]bool
-	skip    string
-	lines   []string
-	writes  []string // package-level vars written (effects table)
+	obj       *types.Func
+	decl      *ast.FuncDecl
+	file      string
+	name      string
+	inout     []*types.Var // pointer receiver / pointer params (returned updated)
+	monadic   bool
+	usesG     bool
+	hasLoop   bool
+	local     bool // can panic locally
+	usesFloat bool // mentions float64/float32: placed in a separate module importing Go/Float.lean
+	callees   map[*types.Func]bool
+	gvars     map[*types.Var]bool
+	skip      string
+	lines     []string
+	writes    []string // package-level vars written (effects table)
 }
 
 type gvar struct {
@@ -212,6 +213,9 @@ func safeIdent(s string) string {
 
 // ---------------------------------------------------------------- analysis
 
+// math functions on float64 values modelled on bit patterns in lean/D128/Go/Float.lean
+var mathFuncs = map[string]bool{"IsNaN": true, "IsInf": true, "Signbit": true, "Float64bits": true, "Float64frombits": true, "NaN": true, "Inf": true, "Copysign": true, "Ldexp": true}
+
 var bitsFuncs = map[string]bool{"Add64": true, "Sub64": true, "Mul64": true, "Div64": true, "Len64": true, "LeadingZeros64": true, "TrailingZeros64": true}
 
 func isConst(e ast.Expr) bool {
@@ -302,8 +306,12 @@ func (t *tr) analyseFn(F *fn) {
 	}
 	sig := F.obj.Type().(*types.Signature)
 	checkType := func(ty types.Type, n ast.Node) {
-		if _, err := leanTypeE(ty); err != nil {
+		lt, err := leanTypeE(ty)
+		if err != nil {
 			unsupported(n, err.Error())
+		}
+		if strings.Contains(lt, "Go.F64") || strings.Contains(lt, "Go.F32") {
+			F.usesFloat = true
 		}
 	}
 	if r := sig.Recv(); r != nil {
@@ -402,6 +410,10 @@ func (t *tr) analyseFn(F *fn) {
 					if p == "math/bits" && bitsFuncs[n.Sel.Name] {
 						return false
 					}
+					if p == "math" && mathFuncs[n.Sel.Name] {
+						F.usesFloat = true
+						return false
+					}
 					if p == "errors" && n.Sel.Name == "New" {
 						return false
 					}
@@ -463,6 +475,9 @@ func (t *tr) analyseCall(F *fn, n *ast.CallExpr, unsupported func(ast.Node, stri
 					return
 				}
 				if p == "errors" && f.Sel.Name == "New" {
+					return
+				}
+				if p == "math" && mathFuncs[f.Sel.Name] {
 					return
 				}
 				unsupported(n, "call of "+p+"."+f.Sel.Name)
@@ -590,6 +605,10 @@ func leanTypeE(t types.Type) (string, error) {
 			return "UInt32", nil
 		case types.String, types.UntypedString:
 			return "Go.Bytes", nil
+		case types.Float64, types.UntypedFloat:
+			return "Go.F64", nil
+		case types.Float32:
+			return "Go.F32", nil
 		}
 		return "", fmt.Errorf("basic type %s", u.String())
 	case *types.Array:
